@@ -20,6 +20,8 @@ Decides, per feature configuration (none = built-in fallback, libm, mm, std):
       and without debug assertions (facts dumped a second time with -C debug-assertions=off);
       a helper whose result depends on cfg(debug_assertions) behaves differently in release
       builds than in the builds the tests run in
+  F7  pixel rounding: raster::round_up_to_half is floor(x + 0.5) + 0.5 in every configuration
+      (class analysis of its integral part)
 Leaves: error bounds of sqrt/recip_sqrt/powf/exp/trigonometric approximations; |x| >= 2^63 for
 the fallback floor; m <= 0 for rem_euclid.
 """
@@ -115,6 +117,43 @@ def fallback_rules(rep, prog):
                     "the built-in rem_euclid is not (x %% m) + [x negative]*m (got %s): the result leaves [0, m] or is not congruent to x" % got, config=cfg)
     # ---- F4 (fallback recip_sqrt)
     newton_recip(rep, prog, FL + "fallback::recip_sqrt", lambda t: t[0] == "call" and last_seg(t[1]) == "from_bits")
+
+
+def pixel_rounding_rule(rep, prog):
+    """F7: round_up_to_half(x) = floor(x + 0.5) + 0.5 in EVERY configuration ("pixel rounding behaves the same in
+    no_std builds"): the integral part is interpreted over the classes of y = x + 0.5 relative to floor(y)."""
+    cfg = prog.config
+    b = prog.body("retrofire_core::render::raster::round_up_to_half")
+    rt = T.strip(ret_term(b), sites=True, refs=True)
+    half = ("const", "f32", 0.5)
+    ok_outer = rt[0] == "bin" and rt[1] == "Add" and half in (rt[2], rt[3])
+    if not ok_outer:
+        raise common.Infra("C20.F7: round_up_to_half is no longer `<integral part> + 0.5` (%s); rule needs re-confirmation" % T.show(rt)[:120])
+    inner = rt[2] if rt[3] == half else rt[3]
+    y = ("bin", "Add", ("param", 1), half, "f32")
+
+    def mark(t):
+        if not isinstance(t, tuple):
+            return t
+        tt = T.strip(t, refs=True, sites=True) if t[0] in ("ref", "deref") else t
+        if tt[0] == "bin" and tt[1] == "Add" and {T.strip(tt[2], refs=True), T.strip(tt[3], refs=True)} == {("param", 1), half}:
+            return ("call", "y::COORD", ())
+        return tuple(mark(x) if isinstance(x, tuple) else x for x in t)
+    marked = mark(inner)
+    bad = []
+    for cls in COORD_CLASSES:
+        r = floor_offset(prog, marked, "::COORD", cls)
+        if r[0] == "unknown":
+            raise common.Infra("C20.F7: round_up_to_half has a form the floor analysis cannot classify (%s)" % r[1])
+        if r[0] == "bad":
+            bad.append("%s: %s" % (cls, r[1]))
+        elif r != ("off", 0):
+            bad.append("x + 0.5 a %s -> floor(x + 0.5) %+d" % (cls, r[1]))
+    rep.inst("C20.F7", "round_up_to_half(x) = floor(x + 0.5) + 0.5 on every class of x + 0.5: %s  [%s]" % ("exact" if not bad else "; ".join(bad), T.show(rt)[:100]), config=cfg)
+    if bad:
+        rep.violate("C20.F7", "F7|round_up_to_half", b.where(),
+                    "pixel rounding differs in this configuration: round_up_to_half is not floor(x + 0.5) + 0.5 (%s) — spans and scanlines starting left of / above -0.5 "
+                    "are shifted by one pixel relative to the other back-ends" % "; ".join(bad), config=cfg)
 
 
 def _mark_param(t):
@@ -263,6 +302,7 @@ def check(rep, args):
     for cfg in configs:
         prog = facts.program(cfg)
         rep.guard(fallback_rules, rep, prog)              # the fallback module is compiled in every configuration
+        rep.guard(pixel_rounding_rule, rep, prog)
         if cfg in ("mm", "ws"):
             rep.guard(mm_rules, rep, prog)
         if cfg in ("libm",):
@@ -279,7 +319,7 @@ def check(rep, args):
                        "return-expression comparison between debug and release MIR of every float helper",
         "evaluations": len(rep.instances),
         "distinct_nontrivial": len({i["what"] for i in rep.instances}),
-        "rules": ["F1", "F2", "F3", "F4", "F5", "F6"],
+        "rules": ["F1", "F2", "F3", "F4", "F5", "F6", "F7"],
     }
     return "other", cov, ["accuracy of sqrt/recip_sqrt/powf/exp/trigonometric approximations against std is numeric and not decided",
                           "libm's and micromath's own floor/abs/rem_euclid are trusted; fallback floor for |x| < 2^63; rem_euclid for m > 0",
